@@ -12,7 +12,7 @@ CLAUSES = {
     "C01": ("c01", "c01_valid", "acc"),
     "C03": ("c03_once", "c03_sides"),
     "C06": ("c06",),
-    "C18": ("c18",),
+    "C18": ("c18", "c18_indent"),
 }
 
 
@@ -75,6 +75,9 @@ def judge_case(prop: str, c: dict, v: dict, run: Run) -> None:
         if v.get("c18") is False:
             run.violation(symptoms.c18_key(out, v["c18_at"], v.get("c18_clauses", [])), "C18_Normal",
                           dict(base, clauses=v.get("c18_clauses")))
+        elif v.get("c18_indent") is False and not v.get("out_err"):
+            ln = v.get("c18_line", {})
+            run.violation(symptoms.indent_key(out, ln), "C18_Indent", dict(base, line=ln))
 
 
 def check(prop: str, tier: str, seed: int) -> int:
@@ -103,6 +106,31 @@ def check(prop: str, tier: str, seed: int) -> int:
         nontrivial = ("out" in c["r"] and c["r"]["out"] != c["text"]) or "fail" in c["r"]
         run.case(c["text"], nontrivial)
         judge_case(prop, c, v, run)
+    if prop == "C06":
+        # "the same holds for the text emitted by any successful set or rm": the edit engine's steps carry the clause
+        from . import edit
+        hists = edit.model_histories(tier, seed, run)
+        if tier == "quick":
+            hists = [h for h in hists if len(h["steps"]) == 1]
+        ecases, _ = edit.make_cases(hists, tier, seed)
+        edit.execute(ecases)
+        everd = edit.judge(ecases, run)
+        n_edit = 0
+        for c in ecases:
+            for k, e in enumerate(c.get("events", [])):
+                bad = everd.get((c["id"], k + 1)) or []
+                if e["res"] == "ok":
+                    n_edit += 1
+                    run.case("edit:" + c["text"] + "|" + c["ops"][k]["npath"] + "|" + c["ops"][k]["vtext"], nontrivial=True)
+                if "C06_EditStable" in bad:
+                    st = c["r"]["steps"][k]
+                    run.violation("C06_edit|" + symptoms.c06_key(st.get("ret", ""), st.get("reparsed", "")).split("|", 1)[1]
+                                  + f"|{c['ops'][k]['f']}", "C06_EditStable",
+                                  {"input": c["text"], "ops": [f"{o['f']} {o['npath']} {o['vtext']}" for o in c["ops"][:k + 1]],
+                                   "output": st.get("ret"), "output2": st.get("reparsed")})
+                if bad:
+                    break
+        run.coverage["edit_outputs_checked"] = n_edit
     for c in cases[:: max(1, len(cases) // 5)][:5]:
         run.sample({"case": c["key"], "input": c["text"], "output": c["r"].get("out"), "raised": c["r"].get("fail")})
     run.assumptions += [
